@@ -10,6 +10,7 @@ import (
 	"time"
 
 	metav1 "k8s.io/apimachinery/pkg/apis/meta/v1"
+	"k8s.io/apiserver/pkg/authorization/authorizer"
 	"pgregory.net/rapid"
 
 	proxyv1alpha1 "github.com/kubewharf/kubegateway/pkg/apis/proxy/v1alpha1"
@@ -34,6 +35,7 @@ type setup struct {
 	Unready  []bool // per endpoint: unhealthy
 	Disabled []bool
 	Subset   []int // indices, in order; nil = no explicit subset
+	Subset2  []int // explicit subset of a second policy (non-resource requests); nil = no second policy
 }
 
 func endpoint(i int) string { return fmt.Sprintf("http://127.0.0.1:%d", 1000+i) }
@@ -63,6 +65,14 @@ func build(t interface{ Fatalf(string, ...interface{}) }, s setup) (*clusters.Cl
 		p.UpstreamSubset = append(p.UpstreamSubset, endpoint(i))
 	}
 	c.Spec.DispatchPolicies = []proxyv1alpha1.DispatchPolicy{p}
+	if s.Subset2 != nil {
+		// a second policy for the non-resource requests, in front of the first one
+		p2 := proxyv1alpha1.DispatchPolicy{Strategy: proxyv1alpha1.RoundRobin, Rules: []proxyv1alpha1.DispatchPolicyRule{{Verbs: []string{"*"}, NonResourceURLs: []string{"*"}}}}
+		for _, i := range s.Subset2 {
+			p2.UpstreamSubset = append(p2.UpstreamSubset, endpoint(i))
+		}
+		c.Spec.DispatchPolicies = []proxyv1alpha1.DispatchPolicy{p2, p}
+	}
 	ci, err := clusters.CreateClusterInfo(c, health, "", nil)
 	if err != nil {
 		t.Fatalf("harness: CreateClusterInfo: %v", err)
@@ -113,8 +123,11 @@ func build(t interface{ Fatalf(string, ...interface{}) }, s setup) (*clusters.Cl
 }
 
 var req = gen.Request{Resource: true, Verb: "get", Res: "pods", User: "u"}.Attributes()
+var req2 = gen.Request{Verb: "get", Path: "/healthz", User: "u"}.Attributes()
 
-func pick(ci *clusters.ClusterInfo) (string, error) {
+func pick(ci *clusters.ClusterInfo) (string, error) { return pickFor(ci, req) }
+
+func pickFor(ci *clusters.ClusterInfo, req authorizer.Attributes) (string, error) {
 	p, err := ci.MatchAttributes(req)
 	if err != nil {
 		return "", err
@@ -140,6 +153,14 @@ func genSetup(t *rapid.T, explicit bool) setup {
 	if explicit {
 		perm := rapid.Permutation(seq(k)).Draw(t, "subsetOrder")
 		s.Subset = perm[:rapid.IntRange(1, k).Draw(t, "subsetLen")]
+		if rapid.IntRange(0, 2).Draw(t, "secondPolicy") != 0 {
+			perm2 := rapid.Permutation(seq(k)).Draw(t, "subset2Order")
+			n2 := len(s.Subset) // same size as the first subset, so that both policies have ready sets of equal size often
+			if rapid.Bool().Draw(t, "subset2OtherLen") {
+				n2 = rapid.IntRange(1, k).Draw(t, "subset2Len")
+			}
+			s.Subset2 = perm2[:n2]
+		}
 	}
 	return s
 }
@@ -156,7 +177,7 @@ func stop(ci *clusters.ClusterInfo) { ci.Stop() }
 
 // TestPropExplicitSubsetStrict: with an explicit subset every window of N consecutive picks is balanced to floor/ceil.
 func TestPropExplicitSubsetStrict(t *testing.T) {
-	sub := stats.NewSub("explicit-subset-strict", "rapid: k in 1..12 endpoints, each healthy / unhealthy / disabled, policy with an explicit upstream subset in any order; L = 1..400 sequential picks (MatchAttributes + Pop per pick) with 0-3 re-deliveries of the unchanged object (ClusterInfo.Sync) at generated positions in between, then G goroutines x P picks; oracle: every pick is a ready endpoint of the subset; in every window of N consecutive sequential picks each of the r ready endpoints appears floor(N/r) or ceil(N/r) times; the totals over all picks (sequential + concurrent) are balanced to floor/ceil; no ready endpoint => error and no pick; non-trivial = >= 2 ready endpoints in the policy and L >= r; distinct by FNV-64 of (setup, L)")
+	sub := stats.NewSub("explicit-subset-strict", "rapid: k in 1..12 endpoints, each healthy / unhealthy / disabled, policy with an explicit upstream subset in any order, two times in three a second policy (for non-resource requests) with its own explicit subset - often of the same size - whose picks are interleaved following a generated pattern and judged on their own; L = 1..400 sequential picks (MatchAttributes + Pop per pick) with 0-3 re-deliveries of the unchanged object (ClusterInfo.Sync) at generated positions in between, then G goroutines x P picks; oracle: every pick is a ready endpoint of the subset; in every window of N consecutive sequential picks each of the r ready endpoints appears floor(N/r) or ceil(N/r) times; the totals over all picks (sequential + concurrent) are balanced to floor/ceil; no ready endpoint => error and no pick; non-trivial = >= 2 ready endpoints in the policy and L >= r; distinct by FNV-64 of (setup, L)")
 	stats.Check(t, stats.N(800, 6000), func(t *rapid.T) {
 		s := genSetup(t, true)
 		ci, ready, obj := build(t, s)
@@ -174,13 +195,54 @@ func TestPropExplicitSubsetStrict(t *testing.T) {
 		for _, e := range ready {
 			isReady[e] = true
 		}
-		var seqPicks []string
+		// the second policy (if any) picks in between, following a generated pattern; its own picks obey the same law
+		var ready2 []string
+		isReady2 := map[string]bool{}
+		for _, i := range s.Subset2 {
+			if !s.Unready[i] && !s.Disabled[i] {
+				ready2 = append(ready2, endpoint(i))
+				isReady2[endpoint(i)] = true
+			}
+		}
+		pattern := []bool{false}
+		if s.Subset2 != nil {
+			pattern = rapid.SliceOfN(rapid.Bool(), 1, 6).Draw(t, "secondPolicyPicksPattern")
+		}
+		// two policies whose ready lists are identical (same endpoints, same order) share one rotation by design: their
+		// picks form ONE round-robin sequence (every endpoint still gets its share of the traffic), so they are judged together
+		var ready1 []string // in the order of the policy's subset, as the picker sees it
+		for _, i := range s.Subset {
+			if !s.Unready[i] && !s.Disabled[i] {
+				ready1 = append(ready1, endpoint(i))
+			}
+		}
+		shared := fmt.Sprint(ready1) == fmt.Sprint(ready2) && r > 0
+		var seqPicks, seqPicks2 []string
 		for i := 0; i < L; i++ {
 			if resyncAt[i] {
 				if err := ci.Sync(obj.DeepCopy()); err != nil {
 					t.Fatalf("harness: re-sync of the unchanged object failed: %v", err)
 				}
 				sub.Class("resync-of-the-unchanged-object-between-picks")
+			}
+			if pattern[i%len(pattern)] {
+				e, err := pickFor(ci, req2)
+				if len(ready2) == 0 {
+					if err == nil {
+						t.Fatalf("no ready endpoint in the second policy but %s was picked (setup %+v)", e, s)
+					}
+					continue
+				}
+				if err != nil || !isReady2[e] {
+					t.Fatalf("second policy: picked %q, %v; ready endpoints of its subset %v (setup %+v)", e, err, ready2, s)
+				}
+				if shared {
+					seqPicks = append(seqPicks, e)
+					sub.Class("pick-of-a-second-policy-with-an-identical-ready-list")
+				} else {
+					seqPicks2 = append(seqPicks2, e)
+				}
+				continue
 			}
 			e, err := pick(ci)
 			if r == 0 {
@@ -197,29 +259,43 @@ func TestPropExplicitSubsetStrict(t *testing.T) {
 			}
 			seqPicks = append(seqPicks, e)
 		}
-		if r == 0 {
-			sub.Class("no-ready-endpoint")
-			return
-		}
-		// every window
-		for _, n := range []int{r, 2*r + 1, 7, L} {
-			if n > len(seqPicks) || n < 1 {
-				continue
+		// every window, per policy (the picks of the other policy in between do not count)
+		checkWindows := func(which string, picks, ready []string) {
+			r := len(ready)
+			if r == 0 {
+				return
 			}
-			counts := map[string]int{}
-			for i, e := range seqPicks {
-				counts[e]++
-				if i >= n {
-					counts[seqPicks[i-n]]--
+			for _, n := range []int{r, 2*r + 1, 7, len(picks)} {
+				if n > len(picks) || n < 1 {
+					continue
 				}
-				if i >= n-1 {
-					for _, x := range ready {
-						if c := counts[x]; c != n/r && c != (n+r-1)/r {
-							t.Fatalf("window of %d consecutive picks ending at pick %d: endpoint %s chosen %d times, expected %d or %d (r=%d ready, setup %+v)\npicks: %v", n, i, x, c, n/r, (n+r-1)/r, r, s, seqPicks[max(0, i-n+1):i+1])
+				counts := map[string]int{}
+				for i, e := range picks {
+					counts[e]++
+					if i >= n {
+						counts[picks[i-n]]--
+					}
+					if i >= n-1 {
+						for _, x := range ready {
+							if c := counts[x]; c != n/r && c != (n+r-1)/r {
+								t.Fatalf("%s: window of %d consecutive picks ending at pick %d: endpoint %s chosen %d times, expected %d or %d (r=%d ready, setup %+v, second policy picks at %v)\npicks: %v", which, n, i, x, c, n/r, (n+r-1)/r, r, s, pattern, picks[max(0, i-n+1):i+1])
+							}
 						}
 					}
 				}
 			}
+		}
+		checkWindows("policy", seqPicks, ready)
+		checkWindows("second policy", seqPicks2, ready2)
+		if len(seqPicks2) > 0 && len(seqPicks) > 0 {
+			sub.Class("two-policies-interleaved")
+			if len(ready2) == r && r >= 2 {
+				sub.Class("two-policies-interleaved-with-ready-sets-of-equal-size")
+			}
+		}
+		if r == 0 {
+			sub.Class("no-ready-endpoint")
+			return
 		}
 		// concurrent pickers: totals stay balanced
 		G := rapid.IntRange(2, 8).Draw(t, "goroutines")
